@@ -10,6 +10,7 @@ fn nontrivial(t: &Trace) -> bool {
 pub fn prop() -> HistProp {
     let mut rc = RunCfg::new(&[Aspect::File, Aspect::Panic, Aspect::Budget]);
     rc.flush_each = false;
+    rc.idle_second_handle = true;
     rc.known.partial_create_nospace = crate::run::known_active("C03", "partial-create-out-of-space");
     let mut gc = GenCfg::fileio();
     gc.max_depth = 1;
